@@ -154,15 +154,14 @@ Proof.
   destruct (flatten (to_graph g) order [] []) as [C0|] eqn:Ef; [|discriminate].
   cbn [option_map] in H. injection H as <- <-.
   unfold build_d4_graph in Eb.
-  destruct (d4_lines rc _ _ toks) as [b|] eqn:El; [|discriminate].
-  destruct (N.leb _ _); [discriminate|].
+  destruct (d4_lines rc _ toks) as [b|] eqn:El; [|discriminate].
   destruct (negb (sg_alive (ls_g (bs_ls b)) 0)) eqn:H0; [discriminate|]. apply negb_false_iff in H0.
   destruct (add_free rc (bs_occ b) (seq 1 (bs_total b)) 0 (bs_ls b)) as [[root1 s1]|] eqn:Efree; [|discriminate].
   destruct (pass2 (ls_g s1) root1) as [g2|] eqn:E2; [|discriminate].
   destruct (pass3 rc ord (with_g s1 g2) root1) as [s3|] eqn:E3; [|discriminate].
   injection Eb as <- <- <-.
   (* the line loop *)
-  pose proof (rep_lines rc n0 _ toks [] _ b (rep_init n0) Hnz El) as HR. cbn [app] in HR.
+  pose proof (rep_lines rc n0 toks [] _ b (rep_init n0) Hnz El) as HR. cbn [app] in HR.
   split; [exact (rp_total _ _ _ HR)|]. intros a.
   destruct (eval_d4_opt_indep toks _ a _ _ _ Hterm) as [bv Hbv].
   unfold eval_d4. rewrite Hbv.
